@@ -18,7 +18,7 @@ func init() {
 }
 
 var profC05 = Profile{
-	MaxBars: 7, MaxSteps: 40, Refresh: []string{"manual", "manual", "manual", "autoinj"}, QLens: []int{-1, -1, -3, -4, 128},
+	MaxBars: 7, MaxSteps: 40, Refresh: []string{"manual", "manual", "manual", "autoinj"}, QLens: []int{-1, -1, -3, -4, 128, 0, 1, -2},
 	Pop: 30, Queue: 25, Prio: true, Ext: 20, Text: 1, Rm: 25, NoPop: 20, AbortW: 2, TicksW: 8, Notifier: 100,
 	Fillers: []string{"bar", "tag", "nop", "spinner"}, LateAdd: true, Cancel: 15, Pty: 20, PtyRowsMax: 8, Faults: 12,
 }
@@ -132,7 +132,10 @@ func runC05(ci interface{}) Result {
 		r.Inconclusive = true
 		return r
 	}
-	exact := sim.OK && (sc.Cfg.QueueLen < 0 || sc.Cfg.QueueLen >= len(sc.Bars)+1) && sc.Cfg.Width == 0
+	exact := sim.OK && sc.Cfg.Width == 0
+	if sc.Cfg.QueueLen >= 0 && sc.Cfg.QueueLen < len(sc.Bars) {
+		r.Classes = append(r.Classes, "q<n")
+	}
 	if sim.OK && sim.Clipped {
 		r.Classes = append(r.Classes, "clipped")
 	}
